@@ -119,6 +119,7 @@ func (th *Thread) callSSA(caller *frame, callpos token.Pos, fn *ssa.Function, ar
 	if fn.Parent() == nil {
 		name := fn.String()
 		if ext, ok := intrinsics[name]; ok {
+			th.visible = e.visibleCaller(caller)
 			return ext(fr, args)
 		}
 		if ext := intrinsicByPkg(fn); ext != nil {
@@ -802,4 +803,25 @@ func (e *Engine) pos(p token.Pos) string {
 	}
 	ps := e.w.prog.Fset.Position(p)
 	return fmt.Sprintf("%s:%d", ps.Filename, ps.Line)
+}
+
+// visibleCaller: is the calling function part of the repo code that the native
+// replay instruments (a non-harness file of the module)?
+func (e *Engine) visibleCaller(caller *frame) bool {
+	if caller == nil || caller.fn == nil {
+		return false
+	}
+	fn := caller.fn
+	for fn.Parent() != nil {
+		fn = fn.Parent()
+	}
+	if fn.Pkg == nil || !e.w.pr.isRepo(fn.Pkg.Pkg.Path()) {
+		return false
+	}
+	pos := caller.fn.Pos()
+	if pos == token.NoPos {
+		return false
+	}
+	f := e.w.prog.Fset.Position(pos).Filename
+	return !strings.Contains(f, "zz_verif_")
 }
